@@ -158,6 +158,18 @@ def run(prop, tier, seed, replay):
                 sizes = [40, 50, 45, 60]
                 samples = [G.make_sample(rng, field, n=sizes[k], extent_mode=rng.choice(["compact", "wide"]),
                                          zrange=zr, edges=edges, weights=True) for k in range(4)]
+                if ci % 2 == 1:
+                    # stratum: the unknown sample is a bootstrap resample of itself (rows drawn with replacement: the same
+                    # position occurs several times), unweighted every other time — every row counts, also a repeated one
+                    s1 = samples[1]
+                    n1_ = len(s1["ra"])
+                    pick_ = np.array([rng.randrange(n1_) for _ in range(n1_)])
+                    for key in ("ra", "dec", "z", "w", "patch"):
+                        if isinstance(s1.get(key), np.ndarray):
+                            s1[key] = s1[key][pick_]
+                    if ci % 4 == 1:
+                        s1["w"] = None
+                    ck.count("stratum=repeated-positions" + (":unweighted" if ci % 4 == 1 else ":weighted"))
                 use_rr = rng.random() < 0.5
                 rep = {"config": cfgkw, "field": {"ra": field["ra"].tolist(), "dec": field["dec"].tolist()},
                        "samples": [{k: np.asarray(v).tolist() for k, v in s.items() if k != "extent"} for s in samples]}
@@ -203,6 +215,8 @@ def run(prop, tier, seed, replay):
                             fac = [1e-9, 4.0, 3.0, 1e6, 0.125][scale_count % 5]
                             scale_count += 1
                             which = rng.choice([0, 1, 3])
+                            if samples[which]["w"] is None:
+                                which = 0
                             s2 = [dict(s, w=s["w"] * fac) if k == which else s for k, s in enumerate(samples)]
                             rtol = 0 if fac in (4.0, 0.125) else 1e-11
                             detail = f"catalog {which} x {fac}"
